@@ -99,6 +99,7 @@ type Sched struct {
 	NewKeys  int
 	Now      int64 // virtual nanoseconds
 	Tickers  []*TickerState
+	Timers   []*TimerState
 	endCh    chan struct{}
 	Epoch    uint64
 	Log      []string // observation log of the harness
@@ -111,6 +112,31 @@ type Sched struct {
 	finisher *Thread
 	objIDs   map[any]int
 	Steps    int
+}
+
+// TimerState is the scheduler-side state of a vtime.Timer.
+type TimerState struct {
+	At    int64 // virtual deadline
+	Fire  func()
+	Fired bool
+	Off   bool
+}
+
+// AddTimer registers a one-shot timer d nanoseconds from the current virtual time.
+func AddTimer(d int64, fire func()) *TimerState {
+	s := S
+	t := &TimerState{At: s.Now + d, Fire: fire}
+	s.Timers = append(s.Timers, t)
+	return t
+}
+
+// StopTimer disarms t; it reports whether the timer was still pending.
+func StopTimer(t *TimerState) bool {
+	if t == nil || t.Fired || t.Off {
+		return false
+	}
+	t.Off = true
+	return true
 }
 
 // TickerState is the scheduler-side state of a vtime.Ticker.
@@ -610,6 +636,12 @@ func Advance(d int64) {
 	}
 	Yield("advance", "")
 	s.Now += d
+	for _, t := range s.Timers {
+		if !t.Fired && !t.Off && t.At <= s.Now {
+			t.Fired = true
+			t.Fire()
+		}
+	}
 }
 
 // Tick delivers one tick to every live ticker whose channel has room (a scheduling point).
